@@ -138,23 +138,25 @@ Definition a_target (q : list entry) (live : bool) (w : which) : option (list en
     end
   end.
 
+Definition a_drop_at (a : astate) (before : list entry) (t : entry) (after : list entry) : astate * option (list Z) :=
+  let st := Dropped (a_connected a) in
+  match after with
+  | x :: after' =>
+    if opt_eqb (e_link x) (Some (e_id t)) then
+      (mkA (before ++ after') (a_smq a) (a_next a) (a_sm_enabled a) false (a_sent_nr a) (a_connected a)
+           (a_sched a) (a_wire a) (log_set (log_set (a_log a) x st) t st), Some (e_data t))
+    else
+      (mkA (before ++ after) (a_smq a) (a_next a) (a_sm_enabled a) (a_r_sent a) (a_sent_nr a) (a_connected a)
+           (a_sched a) (a_wire a) (log_set (a_log a) t st), Some (e_data t))
+  | [] =>
+      (mkA (before ++ after) (a_smq a) (a_next a) (a_sm_enabled a) (a_r_sent a) (a_sent_nr a) (a_connected a)
+           (a_sched a) (a_wire a) (log_set (a_log a) t st), Some (e_data t))
+  end.
+
 Definition a_drop_regular (a : astate) (w : which) : astate * option (list Z) :=
   match a_target (a_q a) (a_connected a) w with
   | None => (a, None)
-  | Some (before, t, after) =>
-    let st := Dropped (a_connected a) in
-    match after with
-    | x :: after' =>
-      if opt_eqb (e_link x) (Some (e_id t)) then
-        (mkA (before ++ after') (a_smq a) (a_next a) (a_sm_enabled a) false (a_sent_nr a) (a_connected a)
-             (a_sched a) (a_wire a) (log_set (log_set (a_log a) x st) t st), Some (e_data t))
-      else
-        (mkA (before ++ after) (a_smq a) (a_next a) (a_sm_enabled a) (a_r_sent a) (a_sent_nr a) (a_connected a)
-             (a_sched a) (a_wire a) (log_set (a_log a) t st), Some (e_data t))
-    | [] =>
-        (mkA (before ++ after) (a_smq a) (a_next a) (a_sm_enabled a) (a_r_sent a) (a_sent_nr a) (a_connected a)
-             (a_sched a) (a_wire a) (log_set (a_log a) t st), Some (e_data t))
-    end
+  | Some (before, t, after) => a_drop_at a before t after
   end.
 
 Definition a_drop (a : astate) (w : which) : astate * option (list Z) :=
